@@ -196,3 +196,9 @@ def r5(ctx):
                 ok = ok and len(th) == 1 and getattr(th[0].kwargs.get("target"), "fn", None) is not None and th[0].kwargs["target"].fn.qualname == f"{APP}._send_ping" \
                     and "thread.start" in [e.name for e in o.effects]
             ctx.ob(f"{APP}.{m}:timestamps-zeroed", ok, f"last_ping_tm={f.get('last_ping_tm')!r} last_pong_tm={f.get('last_pong_tm')!r}", ctx.index.loc(ctx.index.func(f'{APP}.{m}').node))
+
+
+@rule("R-C16-3", min_instances=4, title="the timeout check runs on every loop iteration of both dispatchers, also while data keeps arriving and also on silence")
+def r3(ctx):
+    from .c13 import r4 as dispatcher_skeleton
+    dispatcher_skeleton(ctx)
